@@ -50,7 +50,10 @@ HOSTILE_SCHEMES = [b"stop=3\n1=2147483648-2147483648", b"stop=3\n1=4294967295-42
                    b"stop=2\n1=1-1,c,c,c", b"stop=x", b"\xff\xfe=1", b"stop=3\n1=-5-5\n2=c", b"stop=99999999999", b"", b"stop=2\n1=65535-65535",
                    b"stop=8\n1=0-0\n2=30-20,c\n3=,,,-",
                    # sizes below the 7-byte frame header, reached after the payload is used up (seed C04-3)
-                   b"stop=4\n0=4-4\n1=120-120,4-4\n2=1-1,2-2,3-3,5-5,6-6\n3=6-6", b"stop=3\n0=1-6\n1=1-6,1-6\n2=1-6,1-6,1-6"]
+                   b"stop=4\n0=4-4\n1=120-120,4-4\n2=1-1,2-2,3-3,5-5,6-6\n3=6-6", b"stop=3\n0=1-6\n1=1-6,1-6\n2=1-6,1-6,1-6",
+                   # sizes below the frame header met while a 2..6-byte tail of the payload is still pending (seed C04-6)
+                   b"stop=5\n0=3-3,2-2\n1=3-3,2-2\n2=5-5,1-1\n3=4-4,2-2,1-1\n4=1-1,1-1,1-1,1-1,1-1,1-1,1-1",
+                   b"stop=4\n0=6-6,3-3\n1=10-10,2-2\n2=12-12,1-1\n3=2-2,2-2,2-2,1-1"]
 
 
 def gen_cases(tier, seed):
